@@ -2173,5 +2173,5 @@ func c14genCases(c *h.Ctx, yield func(*h.Case)) {
 }
 
 func init() {
-	h.RegisterProp(h.Prop{Name: "c14", Gen: c14genCases, Exec: c14exec, Isolate: true, Workers: 6, Timeout: 60 * time.Second})
+	h.RegisterProp(h.Prop{Name: "c14", Gen: c14genCases, Exec: c14exec, Isolate: true, Workers: 6, Timeout: 150 * time.Second})
 }
